@@ -27,21 +27,34 @@ pub struct Case {
     pub items: Vec<String>,
     /// indices of items that reach the macro as `macro_rules!` `$i:item` fragments: one group with invisible delimiters each
     pub wrapped: Vec<usize>,
+    /// indices of fn items whose body reaches the macro as a `$b:block` fragment: a `{..}` inside invisible delimiters
+    pub wrapped_bodies: Vec<usize>,
+    /// inner attributes / inner doc comments at the top of the module body
+    pub inner_attrs: String,
 }
 
 impl Case {
     pub fn json(&self) -> Value {
         json!({"engine": "E1", "macro": self.macro_name, "attr": self.attr, "item": self.item,
                "trait_name": self.trait_name, "trait_vis": self.trait_vis, "expected_methods": self.expected,
-               "mod_header": self.mod_header, "items": self.items, "wrapped": self.wrapped})
+               "mod_header": self.mod_header, "items": self.items, "wrapped": self.wrapped, "wrapped_bodies": self.wrapped_bodies, "inner_attrs": self.inner_attrs})
     }
 
     /// the module as a token stream, with the `wrapped` items inside invisible groups
     pub fn item_stream(&self) -> Result<TokenStream, String> {
-        let mut body = TokenStream::new();
+        let mut body = tok::parse_src(&self.inner_attrs).map_err(|e| format!("HARNESS: {e}"))?;
         for (i, it) in self.items.iter().enumerate() {
             let ts = tok::parse_src(it).map_err(|e| format!("HARNESS: {e}"))?;
-            if self.wrapped.contains(&i) {
+            if self.wrapped_bodies.contains(&i) {
+                // everything up to the last `{..}` as written, the `{..}` inside a group with invisible delimiters
+                let mut tts: Vec<TokenTree> = ts.into_iter().collect();
+                let block = tts.pop().ok_or("HARNESS: empty fn item")?;
+                if !matches!(&block, TokenTree::Group(g) if g.delimiter() == Delimiter::Brace) {
+                    return Err("HARNESS: fn item does not end in a block".into());
+                }
+                body.extend(tts);
+                body.extend(std::iter::once(TokenTree::Group(proc_macro2::Group::new(Delimiter::None, std::iter::once(block).collect()))));
+            } else if self.wrapped.contains(&i) {
                 body.extend(std::iter::once(TokenTree::Group(proc_macro2::Group::new(Delimiter::None, ts))));
             } else {
                 body.extend(ts);
@@ -81,7 +94,9 @@ pub fn gen_case(t: &mut Tape) -> Case {
     let mod_vis = gen::gen_vis(t);
     // the module's own name: ordinary, raw-identifier (keyword or not), unusual casing
     let mod_name = *t.pick(&["the_mod", "the_mod", "m", "r#match", "r#type", "r#plain", "Mod9", "_m"]);
-    let item = format!("{mod_attrs} {mod_vis} mod {mod_name} {{\n{}\n}}", items.join("\n"));
+    // inner attributes and inner doc comments at the top of the module
+    let inner_attrs = if t.chance(1, 6) { (*t.pick(&["//! inner doc\n", "#![allow(unused)]\n", "/*! block inner doc */ #![allow(dead_code)] #![doc = \"more\"]\n"])).to_string() } else { String::new() };
+    let item = format!("{mod_attrs} {mod_vis} mod {mod_name} {{\n{inner_attrs}{}\n}}", items.join("\n"));
     let nontrivial = !expected.is_empty() && decoys > 0;
     // some items arrive as `$i:item` fragments (only items that are exactly one item can)
     let mut wrapped = vec![];
@@ -92,7 +107,16 @@ pub fn gen_case(t: &mut Tape) -> Case {
             }
         }
     }
-    Case { macro_name, attr, item, trait_name, trait_vis, expected, nontrivial, mod_header: format!("{mod_attrs} {mod_vis} mod {mod_name}"), items, wrapped }
+    // ... and some fn bodies as `$b:block` fragments (items that are exactly one fn item with a body)
+    let mut wrapped_bodies = vec![];
+    if t.chance(1, 5) {
+        for (i, it) in items.iter().enumerate() {
+            if !wrapped.contains(&i) && t.chance(1, 2) && syn::parse_str::<syn::ItemFn>(it).is_ok() {
+                wrapped_bodies.push(i);
+            }
+        }
+    }
+    Case { macro_name, attr, item, trait_name, trait_vis, expected, nontrivial, mod_header: format!("{mod_attrs} {mod_vis} mod {mod_name}"), items, wrapped, wrapped_bodies, inner_attrs }
 }
 
 fn find_module_body(ts: &TokenStream) -> Option<(TokenStream, TokenStream)> {
@@ -136,7 +160,8 @@ fn find_trait(body: &TokenStream, name: &str) -> Option<syn::ItemTrait> {
 }
 
 pub fn check(c: &Case) -> Result<&'static str, String> {
-    let outcome = if c.wrapped.is_empty() {
+    let fragments = !c.wrapped.is_empty() || !c.wrapped_bodies.is_empty();
+    let outcome = if !fragments {
         e1::outcome(&c.macro_name, &c.attr, &c.item).map_err(|e| format!("HARNESS: {e}"))?
     } else {
         e1::outcome_ts(&c.macro_name, tok::parse_src(&c.attr).map_err(|e| format!("HARNESS: {e}"))?, c.item_stream()?)
@@ -144,9 +169,17 @@ pub fn check(c: &Case) -> Result<&'static str, String> {
     let out = match outcome {
         Outcome::Accepted(_, ts) => ts,
         // a module is accepted or rejected for what its items are, not for how they were handed over
-        Outcome::Rejected(m) if !c.wrapped.is_empty() => {
+        Outcome::Rejected(m) if fragments => {
             return match e1::outcome(&c.macro_name, &c.attr, &c.item).map_err(|e| format!("HARNESS: {e}"))? {
-                Outcome::Accepted(..) => Err(format!("the module is rejected (`{m}`) when items {:?} arrive as `$i:item` fragments, and accepted when they are written out", c.wrapped)),
+                Outcome::Accepted(..) => Err(format!("the module is rejected (`{m}`) when items {:?} arrive as `$i:item` fragments and the bodies of items {:?} as `$b:block` fragments, and accepted when they are written out", c.wrapped, c.wrapped_bodies)),
+                _ => Ok("rejected"),
+            };
+        }
+        // ... nor for the inner attributes at its top
+        Outcome::Rejected(m) if !c.inner_attrs.is_empty() => {
+            let plain = c.item.replacen(&c.inner_attrs, "", 1);
+            return match e1::outcome(&c.macro_name, &c.attr, &plain).map_err(|e| format!("HARNESS: {e}"))? {
+                Outcome::Accepted(..) => Err(format!("the module is rejected (`{m}`) because of the inner attributes `{}` at its top, and accepted without them", c.inner_attrs.trim())),
                 _ => Ok("rejected"),
             };
         }
@@ -211,6 +244,15 @@ fn one(ctx: &mut Ctx, tape: &[u32]) -> Result<(), Fail> {
             ctx.class(class);
             if class == "accepted" {
                 ctx.class(&format!("visible_fns={}", c.expected.len().min(4)));
+                if !c.wrapped.is_empty() {
+                    ctx.class("items_as_item_fragments");
+                }
+                if !c.wrapped_bodies.is_empty() {
+                    ctx.class("fn_bodies_as_block_fragments");
+                }
+                if !c.inner_attrs.is_empty() {
+                    ctx.class("inner_attributes");
+                }
                 if c.nontrivial {
                     ctx.nontrivial(&(&c.attr, &c.item));
                     ctx.sample(|| c.json());
@@ -260,7 +302,9 @@ pub fn replay(ctx: &mut Ctx, v: &Value) {
     let c = Case { macro_name: s(v, "macro"), attr: s(v, "attr"), item: s(v, "item"), trait_name: s(v, "trait_name"), trait_vis: s(v, "trait_vis"), expected, nontrivial: true,
         mod_header: s(v, "mod_header"),
         items: v.get("items").and_then(|a| a.as_array()).map(|a| a.iter().filter_map(|x| x.as_str().map(String::from)).collect()).unwrap_or_default(),
-        wrapped: v.get("wrapped").and_then(|a| a.as_array()).map(|a| a.iter().filter_map(|x| x.as_u64().map(|n| n as usize)).collect()).unwrap_or_default() };
+        wrapped: v.get("wrapped").and_then(|a| a.as_array()).map(|a| a.iter().filter_map(|x| x.as_u64().map(|n| n as usize)).collect()).unwrap_or_default(),
+        wrapped_bodies: v.get("wrapped_bodies").and_then(|a| a.as_array()).map(|a| a.iter().filter_map(|x| x.as_u64().map(|n| n as usize)).collect()).unwrap_or_default(),
+        inner_attrs: v.get("inner_attrs").and_then(|x| x.as_str()).unwrap_or("").to_string() };
     ctx.count_eval();
     match check(&c) {
         Ok(_) => {}
@@ -279,7 +323,7 @@ struct E2Mod {
 }
 
 fn e2_module(t: &mut Tape) -> E2Mod {
-    const QUALS: [&str; 6] = ["", "async ", "unsafe ", "extern \"C\" ", "async unsafe ", "unsafe extern \"C\" "];
+    const QUALS: [&str; 9] = ["", "async ", "unsafe ", "extern \"C\" ", "async unsafe ", "unsafe extern \"C\" ", "const ", "const unsafe ", "const unsafe extern \"C\" "];
     const VIS: [&str; 3] = ["pub ", "pub(crate) ", "pub(super) "];
     let n = t.range(1, 7);
     let mut items = vec![];
@@ -290,7 +334,7 @@ fn e2_module(t: &mut Tape) -> E2Mod {
     for i in 0..n {
         match t.weighted(&[5, 2, 5]) {
             0 => {
-                let q = QUALS[t.weighted(&[5, 2, 1, 1, 1, 1])];
+                let q = QUALS[t.weighted(&[5, 2, 1, 1, 1, 1, 1, 1, 1])];
                 let v = VIS[t.weighted(&[4, 2, 1])];
                 items.push(format!("    {v}{q}fn vis{i}(_deps: &impl ::core::any::Any) -> u32 {{ {} }}", 100 + i));
                 expected.push((format!("vis{i}"), q.to_string()));
@@ -325,12 +369,14 @@ fn e2_module(t: &mut Tape) -> E2Mod {
             }
         }
     }
-    let tvis = ["", "pub ", "pub(crate) "][t.choose(3)];
+    // (the relative ones are relative to where the attribute is written: the parent of the module)
+    let tvis = ["", "pub ", "pub(crate) ", "", "pub ", "pub(self) ", "pub(super) ", "pub(in super) ", "pub(in crate) ", "pub(in self) "][t.choose(10)];
+    let inner = if t.chance(1, 5) { "    //! inner doc\n    #![allow(unused)]\n" } else { "" };
     let mod_name = *t.pick(&["m", "m", "r#match", "r#type", "r#plain", "Mod9"]);
     let mod_vis = ["", "pub ", "pub(crate) "][t.choose(3)];
     // the module may come out of a `macro_rules!` expansion that receives one or two of its non-method items as `$i:item`
     // fragments (they reach the attribute macro as groups with invisible delimiters)
-    let interpolate = !single.is_empty() && t.chance(1, 4);
+    let interpolate = t.chance(1, 4);
     let src = if interpolate {
         let picked: Vec<usize> = single.iter().copied().take(2).collect();
         let mut body = items.clone();
@@ -339,17 +385,33 @@ fn e2_module(t: &mut Tape) -> E2Mod {
             args.push(items[*at].trim().to_string());
             body[*at] = format!("    $i{k}");
         }
-        let params: Vec<String> = (0..picked.len()).map(|k| format!("$i{k}:item")).collect();
+        let mut params: Vec<String> = (0..picked.len()).map(|k| format!("$i{k}:item")).collect();
+        // the bodies of one private and one visible fn as `$b:block` fragments
+        let mut nb = 0;
+        for want_private in [true, false] {
+            if let Some(at) = (0..body.len()).find(|at| {
+                let it = body[*at].trim_start();
+                !picked.contains(at) && it.ends_with('}') && if want_private { it.starts_with("fn priv") } else { it.contains("fn vis") }
+            }) {
+                if t.flip() {
+                    let open = body[at].rfind('{').unwrap();
+                    args.push(body[at][open..].to_string());
+                    body[at] = format!("{}$b{nb}", &body[at][..open]);
+                    params.push(format!("$b{nb}:block"));
+                    nb += 1;
+                }
+            }
+        }
         format!(
-            "macro_rules! __mk_mod {{ ({}) => {{\n#[::entrait::entrait({tvis}TheTrait)]\n{mod_vis}mod {mod_name} {{\n{}\n}}\n}} }}\n__mk_mod!({});\n",
+            "macro_rules! __mk_mod {{ ({}) => {{\n#[::entrait::entrait({tvis}TheTrait)]\n{mod_vis}mod {mod_name} {{\n{inner}{}\n}}\n}} }}\n__mk_mod!({});\n",
             params.join(", "),
             body.join("\n"),
             args.join(", ")
         )
     } else {
-        format!("#[::entrait::entrait({tvis}TheTrait)]\n{mod_vis}mod {mod_name} {{\n{}\n}}\n", items.join("\n"))
+        format!("#[::entrait::entrait({tvis}TheTrait)]\n{mod_vis}mod {mod_name} {{\n{inner}{}\n}}\n", items.join("\n"))
     };
-    let summary = format!("#[entrait({tvis}TheTrait)] mod {mod_name} {{ {} }}{}", items.iter().map(|s| s.trim().to_string()).collect::<Vec<_>>().join(" "), if interpolate { " [module from macro_rules!, items handed in as $i:item fragments]" } else { "" });
+    let summary = format!("#[entrait({tvis}TheTrait)] mod {mod_name} {{ {}{} }}{}", inner.trim().replace('\n', " "), items.iter().map(|s| s.trim().to_string()).collect::<Vec<_>>().join(" "), if interpolate { " [module from macro_rules!, items handed in as $i:item fragments, some fn bodies as $b:block fragments]" } else { "" });
     E2Mod { src, expected, not_methods, summary }
 }
 
